@@ -296,12 +296,18 @@ PROC_STATIC = ["stat", "meminfo", "vmstat", "zoneinfo", "cpuinfo", "diskstats", 
                "filesystems", "net", "self", "uptime"]
 
 
+# where procfs is mounted in the worlds built from now on (psutil.PROCFS_PATH is set to it by the seams); with another
+# mount point nothing answers under /proc, so a path that does not go through get_procfs_path() fails
+DEFAULT_PROCFS = "/proc"
+
+
 class World:
     def __init__(self, ncpus=2, btime=1700000000, jiffies=500000, mypid=77):
         self.ncpus = ncpus
         self.btime = btime          # published in /proc/stat
         self.jiffies = jiffies      # since boot
         self.mono = 1000.0          # virtual monotonic clock
+        self.procfs = DEFAULT_PROCFS
         self.mypid = mypid
         self.procs = {}             # pid -> Proc (listed: running or zombie)
         self.tids = {}              # tid -> Proc (extra thread ids, not listed)
@@ -486,6 +492,23 @@ class World:
             if head.isdigit():
                 return int(head), tail
         return None, None
+
+    def xlate(self, path):
+        """caller's path -> path inside the model (procfs lives at /proc there, wherever it is mounted for the caller)"""
+        m = self.procfs
+        if m == "/proc" or not isinstance(path, str):
+            return path
+        if path == m or path.startswith(m + "/"):
+            return "/proc" + path[len(m):]
+        if path == "/proc" or path.startswith("/proc/"):
+            return "/.nothing-mounted-on-proc" + path[5:]
+        return path
+
+    def unxlate(self, path):
+        m = self.procfs
+        if m != "/proc" and isinstance(path, str) and (path == "/proc" or path.startswith("/proc/")):
+            return m + path[5:]
+        return path
 
     def resolve(self, path, follow=True, depth=0):
         """Resolve symlinks in the static VFS (component-wise)."""
